@@ -80,7 +80,8 @@ def run_case(case):
     def random_elements(rr, pal):
         a = 10 ** rr.uniform(-0.5, 0.7)
         e = rr.uniform(0.02, 0.6)
-        inc = rr.uniform(0.05, 1.2)
+        # prograde and retrograde; the Pal map is singular at inc = pi (ix^2 + iy^2 = 4): finite differences need some distance from it
+        inc = rr.uniform(0.05, 1.2) if rr.random() < 0.6 else rr.uniform(1.6, 2.3 if pal else math.pi - 0.05)
         Om, om, f = rr.uniform(0.1, 6.1), rr.uniform(0.1, 6.1), rr.uniform(0.2, 6.0)
         m = 10 ** rr.uniform(-6, -2)
         if not pal:
